@@ -221,6 +221,11 @@ M("tp21_flow_control_to_global_handled", ["C05"], "D56 reverted (J1939-21): RTS/
   ("j1939/j1939_21.py", "        if (dest_address == ParameterGroupNumber.Address.GLOBAL) and (control_byte != self.ConnectionMode.BAM):", "        if False:"))
 M("tp22_flow_control_to_global_handled", ["C05"], "D56 reverted (J1939-22): RTS/CTS/ACK/abort to address 255 are handled",
   ("j1939/j1939_22.py", "        if (dest_address == ParameterGroupNumber.Address.GLOBAL) and (control_byte not in (self.TpControlType.BAM, self.TpControlType.EOM_STATUS)):", "        if False:"))
+M("dm14_client_deaf_for_dm15_while_waiting_for_data", ["C18"], "D57 reverted: the DM15 handler is unsubscribed while a read waits for its DM16",
+  ("j1939/Dm14Query.py", "            # (the DM15 handler stays subscribed: the device may answer 'operation failed' instead of the data)\n",
+   "            self._ca.unsubscribe(self._parse_dm15)\n"),
+  ("j1939/Dm14Query.py", "        self._ca.unsubscribe(self._parse_dm16)\n        self.state = QueryState.WAIT_FOR_OPER_COMPLETE\n",
+   "        self._ca.unsubscribe(self._parse_dm16)\n        self._ca.subscribe(self._parse_dm15)\n        self.state = QueryState.WAIT_FOR_OPER_COMPLETE\n"))
 M("dm1_notify_rereads_attributes", ["C16"], "D49 reverted: _notify_subscribers re-reads the attributes for every subscriber",
   ("j1939/diagnostic_messages.py", "            callback(sa, lamp_status.copy(), [dict(dtc_dic) for dtc_dic in dtc_dic_list], timestamp)",
    "            callback(sa, self._lamp_status.copy(), [dict(dtc_dic) for dtc_dic in self._dtc_dic_list], timestamp)"))
